@@ -1270,3 +1270,89 @@ Lemma C08_tmpcap_prune_finding_proof :
   existsb (streqb (bs "batch")) r2 = true /\
   existsb (streqb (bs "multi-prefix")) r2 = negb tmp_prune_aware.
 Proof. vm_compute. repeat split. Qed.
+
+(* ====================================================================== *)
+(* 8. completeness over the whole listing                                   *)
+(* ====================================================================== *)
+
+(* supported whatever the STS failure clock says: possible_caps cfg true is the smallest
+   possibleCapList can be *)
+Lemma possible_caps_mono cfg r k :
+  amem k (possible_caps cfg true) = true -> amem k (possible_caps cfg r) = true.
+Proof.
+  rewrite !amem_In, !possible_caps_keys. intros [H|[H|[H|(H1 & H2 & H3 & H4)]]]; auto.
+  right. right. right. repeat split; auto. destruct r; [exact H4|reflexivity].
+Qed.
+
+(* converse of OInv: everything on offer that the client supports is pending *)
+Definition CInv (cfg : cap_cfg) (acc : list str) (tmp : capmap) : Prop :=
+  forall k, In k acc -> amem k (possible_caps cfg true) = true -> In k (akeys tmp).
+
+Lemma step_offered_complete cfg st i acc :
+  CInv cfg acc (st_tmp st) ->
+  CInv cfg (offered_step acc i) (st_tmp (fst (cap_step cfg st i))).
+Proof.
+  intros C. unfold cap_step, offered_step. rewrite handle_cap_by_kind. cbv zeta.
+  pose proof (classify_inv (in_params i)) as I.
+  destruct (classify (in_params i)) eqn:K.
+  - rewrite I. intros k Hk P. cbn [fst st_tmp]. apply tmp_after_del_keys.
+    destruct tmp_prune_aware.
+    + apply filter_In in Hk as [Hk N]. split; [now apply C|]. intros _ H.
+      apply existsb_streqb_In in H. rewrite H in N. discriminate.
+    + split; [now apply C|discriminate].
+  - destruct I as (N & -> & _). rewrite N. intros k Hk P. cbn [fst]. rewrite st_after_nak_tmp.
+    destruct tmp_prune_aware; [destruct Hk|now apply C].
+  - destruct I as (_ & L & -> & _). rewrite (is_ls_not_nak _ L), L. intros k Hk P.
+    assert (G : In k (akeys (tmp_after_ls cfg (in_now i) st (in_params i)))).
+    { apply tmp_after_ls_keys. apply in_app_or in Hk as [Hk|Hk]; [left; now apply C|].
+      right. split; [exact Hk|now apply possible_caps_mono]. }
+    destruct (Nat.eqb _ 0); exact G.
+  - destruct I as (_ & L & -> & _). rewrite (is_ls_not_nak _ L), L. intros k Hk P. cbn [fst st_tmp].
+    apply tmp_after_ls_keys. apply in_app_or in Hk as [Hk|Hk]; [left; now apply C|].
+    right. split; [exact Hk|now apply possible_caps_mono].
+  - destruct I as (A & -> & ->). rewrite (is_ack_not_nak _ A), A. intros k [].
+  - destruct I as (-> & -> & -> & ->). intros k Hk P. now apply C.
+Qed.
+
+Lemma run_offered_complete cfg h : forall st acc,
+  CInv cfg acc (st_tmp st) -> CInv cfg (fold_left offered_step h acc) (st_tmp (cap_after cfg st h)).
+Proof.
+  induction h as [|i h IH]; intros st acc C; cbn [fold_left cap_after]; [exact C|].
+  apply IH. now apply step_offered_complete.
+Qed.
+
+Lemma cap_after_snoc cfg h : forall st i,
+  cap_after cfg st (h ++ [i]) = fst (cap_step cfg (cap_after cfg st h) i).
+Proof. induction h as [|j h IH]; intros st i; cbn [app cap_after]; [reflexivity|apply IH]. Qed.
+
+(* At the final line of a listing, every name on offer — listed on ANY line of the listing
+   and not withdrawn — that the client supports is in the one CAP REQ that answers it; so
+   CAP END at a final line means nothing on offer is supported. *)
+Lemma C08_req_complete_listing_proof cfg s0 h i name :
+  ord_complete (in_ord i) ->
+  is_final_ls (in_params i) = true ->
+  In name (offered (h ++ [i])) ->
+  amem name (possible_caps cfg true) = true ->
+  exists names, snd (cap_step cfg (cap_after cfg (cap_init s0) h) i) = [out_REQ names] /\ In name names.
+Proof.
+  intros OC F O P.
+  assert (C : CInv cfg (offered (h ++ [i])) (st_tmp (cap_after cfg (cap_init s0) (h ++ [i])))).
+  { apply (run_offered_complete cfg (h ++ [i]) (cap_init s0) []). intros k []. }
+  rewrite cap_after_snoc in C. specialize (C name O P).
+  pose proof (C08_concludes_proof (in_ord i) cfg (in_tls i) (in_now i)
+                (cap_after cfg (cap_init s0) h) (in_params i)) as CC. cbv zeta in CC.
+  destruct CC as (_ & C2 & _). unfold cap_step in *.
+  destruct (C2 F) as [[_ T]|[_ R]].
+  - rewrite T in C. destruct C.
+  - eexists. split; [exact R|]. now apply OC.
+Qed.
+
+(* the listing of seeded/C08-4's demonstration: the usable names are on the continuation line *)
+Example ex_listing_last_line_unusable :
+  let h := [ ex_in [bs "*"; s_LS; s_star; bs "away-notify multi-prefix foo/unknown"] ] in
+  let i := ex_in [bs "*"; s_LS; bs "bar/unknown example.org/vendor=1"] in
+  is_final_ls (in_params i) = true /\
+  offered (h ++ [i]) = [bs "away-notify"; bs "multi-prefix"; bs "foo/unknown"; bs "bar/unknown"; bs "example.org/vendor"] /\
+  snd (cap_step ex_cfg (cap_after ex_cfg (cap_init sts_init) h) i) =
+    [out_REQ [bs "away-notify"; bs "multi-prefix"]].
+Proof. vm_compute. repeat split. Qed.
